@@ -1,7 +1,9 @@
 import Driver.Proto
 import Driver.Kw
+import Driver.KwHelpers
 import Driver.Stmts
 import Driver.Cursor
+import Driver.CursorState
 import Driver.Lists
 import Driver.Pratt
 import Driver.ExprPrint
@@ -10,14 +12,17 @@ import Driver.Escape
 import Driver.Visit
 import Driver.Serde
 import Driver.DataType
+import Driver.Query
 /-! Model driver: one request per line `op \t arg …`, one answer per line. -/
 namespace Driver
 
 def dispatch (line : String) : String :=
   match line.splitOn "\t" with
   | "kw" :: args => handleKw args
+  | "kwhelpers" :: args => handleKwHelpers args
   | "stmts" :: args => handleStmts args
   | "cursor" :: args => handleCursor args
+  | "cursorstate" :: args => handleCursorState args
   | "lists" :: args => handleLists args
   | "prec" :: args => Pr.handlePrec args
   | "chains" :: args => Pr.handleChains args
@@ -30,6 +35,7 @@ def dispatch (line : String) : String :=
   | "serde" :: args => handleSerde args
   | "dtparse" :: args => DTyD.handleParse args
   | "dtprint" :: args => DTyD.handlePrint args
+  | "queries" :: args => Qr.handleQueries args
   | _ => "bad-op"
 
 partial def loop (h : IO.FS.Stream) (out : IO.FS.Stream) : IO Unit := do
